@@ -589,6 +589,22 @@ func withinProbe(res, a, b geom.Polygonal) string {
 	return sb.String()
 }
 
+// cellAnswers asks the library geom.Point.Within(result) at every point handed over by the lean:prep
+// stage, in order: ` cw <n> <one digit per point: 0 Outside, 1 Inside, 2 OnEdge>`. Nothing for a nil result.
+func cellAnswers(res geom.Polygonal, cells []geom.Point) string {
+	if res == nil || len(cells) == 0 {
+		return ""
+	}
+	if bb, ok := res.(*geom.Bounds); ok && bb == nil {
+		return ""
+	}
+	d := make([]byte, len(cells))
+	for i, c := range cells {
+		d[i] = byte('0' + int(c.Within(res)))
+	}
+	return fmt.Sprintf(" cw %d %s", len(cells), d)
+}
+
 func toks2(a, b geom.Polygonal) string { return vproto.GeomToks(a) + "|" + vproto.GeomToks(b) }
 
 func impl() {
@@ -664,6 +680,18 @@ func impl() {
 				}
 				return
 			}
+			// ` ## <n> (<xbits> <ybits>)*`: the sample points of ALL cells of the operands' arrangement,
+			// appended by the lean:prep stage (lean/GeomV/C01/Prep.lean, theorem C01_cells_asked)
+			var cells []geom.Point
+			if (kind == "op" || kind == "opx") && !p.Done() {
+				if p.Next() != "##" {
+					panic("harness: expected ##")
+				}
+				n := p.Int()
+				for i := 0; i < n; i++ {
+					cells = append(cells, p.Pt())
+				}
+			}
 			a, b = shapes.Flat(a), shapes.Flat(b)
 			before := toks2(a, b)
 			if kind == "op" || kind == "opx" {
@@ -672,7 +700,7 @@ func impl() {
 					res = "mutated"
 					return
 				}
-				res = "ok " + vproto.GeomToks(r) + withinProbe(r, a, b)
+				res = "ok " + vproto.GeomToks(r) + withinProbe(r, a, b) + cellAnswers(r, cells)
 				return
 			}
 			var sb strings.Builder
